@@ -147,8 +147,8 @@ Print Assumptions C12_refuted_before_fix.
 
 (* ------------------------------------------------------------------------------------------
    Appended: hypotheses discharged from reachability (second invariant [WInv], Sched/WaitInv.v,
-   WaitOps.v, WaitLib.v, WaitProofs.v; corollaries Sched/WaitThms.v; counterexample
-   Sched/InheritStale.v, WaitStale.v).
+   WaitOps.v, WaitLib.v, WaitProofs.v; corollaries Sched/WaitThms.v; finding F16 and its
+   repair Sched/InheritStale.v, WaitStale.v).
    [reachable_ne s] (Sched/WaitProofs.v): s is reached from an initial state by an action list
    satisfying run_ok and run_ne: no eager start ([Spawn SEager]) is executed, and an
    environment call [ADo op] with op a release / condition wait / set-priority (these act as
@@ -177,34 +177,144 @@ Theorem C12_key_tracks_eprio_reachable :
 Proof. exact propagate_reach_thm. Qed.
 Print Assumptions C12_key_tracks_eprio_reachable.
 
-(* [keyed] is NOT an invariant of reachable states, even without eager starts and on an
-   acyclic wait-for graph: in the reachable state istStale (Sched/InheritStale.v: the run of
-   C12_example continued by cancelling X, which leaves lock 1 held by the queued W1) W1's live
-   entry in lock 0 keeps the inherited key -5 although W1's effective priority is 5 again
-   (nothing re-keys when an effective priority becomes LESS urgent), and H's release() hands
-   lock 0 to W1 although the live waiter W2 (effective priority 3) is `before` W1.  The real
-   asynkit code behaves the same (replayed on /repo/src). *)
-Theorem C12_keyed_not_invariant :
-  reachable_ne istStale /\ ranked istStale /\
-  arr (lpq (getl istStale 0)) = [mkE (-5)%Q 0 3; mkE 3%Q 1 4] /\
-  lwt (getl istStale 0) = [(3, 1); (4, 2)] /\
-  map (fun t => Qred (wprio istStale t)) [1; 2] = [5%Q; 3%Q] /\
-  live istStale (mkE (-5)%Q 0 3) /\ live istStale (mkE 3%Q 1 4) /\
-  ~ keyed istStale 0 /\
+(* Before the fix of finding F16: acquire()'s `finally` only removed the leaving waiter's entry
+   ([InheritStale.acquire_p_finish_old]: the old text of Model.acquire_p_finish, which differs
+   from the current one only by the missing `owning.propagate_priority(self)` when the lock
+   stays locked; Sched/InheritStale.v, not part of the model).  istX is the state of the run of
+   C12_example continued by X.cancel(), just before the cancelled X (task 3, suspended in
+   acquire(lock 1) on its future 6) runs that `finally`: it is reachable in the current model,
+   without eager starts, acyclic, and `keyed` holds for both locks (W1 still inherits -5 from
+   the queued X).  With the old text X leaves lock 1, W1's effective priority is its own 5
+   again, but W1's live entry in lock 0 keeps the inherited key -5: `keyed` fails (nothing
+   re-keyed when an effective priority became LESS urgent), and H's release() hands lock 0 to
+   W1 although the live waiter W2 (effective priority 3) is `before` W1.  The unrepaired
+   asynkit code behaved the same (replayed on /repo/src before the fix). *)
+Theorem C12_refuted_before_fix_F16 :
+  (* istXold: X's `finally` with the old text, applied in istX *)
+  istXold = fst (InheritStale.acquire_p_finish_old istX 3 1 6 true (RExc ECancelled)) /\
+  (reachable_ne istX /\
+   tframes istX 3 = [InFut 6; InAcquireP 1 6 true] /\ task_is_runnable istX 3 = true /\
+   fstate_ (getf istX 6) = FCancelled /\ keyed istX 0 /\ keyed istX 1) /\
+  ranked istXold /\
+  arr (lpq (getl istXold 0)) = [mkE (-5)%Q 0 3; mkE 3%Q 1 4] /\
+  lwt (getl istXold 0) = [(3, 1); (4, 2)] /\
+  map (fun t => Qred (wprio istXold t)) [1; 2] = [5%Q; 3%Q] /\
+  live istXold (mkE (-5)%Q 0 3) /\ live istXold (mkE 3%Q 1 4) /\
+  ~ keyed istXold 0 /\
   (* the queued W1 holds lock 1: outside the domain of C12_handover_reachable *)
-  tholding (gett istStale 1) = [1] /\
-  release_p istStale 0 0 = (wake_up_first_p (pre_wake istStale 0 0) 0, RVal 0) /\
-  before (pre_wake istStale 0 0) 0 (mkE 3%Q 1 4) (mkE (-5)%Q 0 3) /\
-  map (fun f => fstate_ (getf (fst (release_p istStale 0 0)) f)) [3; 4] = [FResult 1; FPending].
+  tholding (gett istXold 1) = [1] /\
+  release_p istXold 0 0 = (wake_up_first_p (pre_wake istXold 0 0) 0, RVal 0) /\
+  before (pre_wake istXold 0 0) 0 (mkE 3%Q 1 4) (mkE (-5)%Q 0 3) /\
+  map (fun f => fstate_ (getf (fst (release_p istXold 0 0)) f)) [3; 4] = [FResult 1; FPending] /\
+  (* the old and the current text agree unless the lock stays locked by another task *)
+  (forall s t l f had inp,
+     (let s' := fst (InheritStale.acquire_p_finish_old s t l f had inp) in
+      llocked (getl s' l) = false \/ lowner (getl s' l) = Some t \/ lowner (getl s' l) = None) ->
+     acquire_p_finish s t l f had inp = InheritStale.acquire_p_finish_old s t l f had inp).
 Proof.
-  destruct istStale_facts as (A & B & _ & _ & _ & _ & C & _ & D & E & F).
-  destruct istStale_handover as (G & _ & _ & _ & _ & H & _ & J & _).
-  split; [exact reachable_ne_istStale|]. split; [exact istStale_ranked|].
+  destruct istX_facts as (_ & _ & _ & _ & _ & _ & _ & _ & XF & XR & XK0 & XK1).
+  destruct istXold_facts as (A & B & _ & _ & _ & _ & C & _ & D & E & T & F).
+  destruct istXold_handover as (G & _ & _ & _ & _ & H & _ & J).
+  split; [exact istXold_def|].
+  split.
+  { split; [exact reachable_ne_istX|]. split; [exact XF|]. split; [exact XR|].
+    split; [exact istX_fut6|split; [exact XK0|exact XK1]]. }
+  split; [exact istXold_ranked|].
   split; [exact A|]. split; [exact B|]. split; [exact C|]. split; [exact D|]. split; [exact E|].
-  split; [exact F|]. split; [apply istStale_not_flat|]. split; [exact G|]. split; [exact H|].
-  rewrite G. exact J.
+  split; [exact F|]. split; [exact T|]. split; [exact G|]. split; [exact H|].
+  split; [rewrite G; exact J|]. exact finish_old_agrees.
 Qed.
-Print Assumptions C12_keyed_not_invariant.
+Print Assumptions C12_refuted_before_fix_F16.
+
+(* The repaired code on the same run: istLeft is the state after X has run the current
+   `finally` (reachable without eager starts, acyclic; the queued W1 still holds lock 1, so the
+   state is outside the domain of C12_handover_reachable).  The `finally` has re-keyed W1's
+   entry in lock 0 to W1's current effective priority 5, keeping its arrival number 0 (the keys
+   of lock 0 are (3, W2), (5, W1)); `keyed` holds for both locks, and H's release() hands
+   lock 0 to W2 (future 4), the (effective priority, arrival)-least live waiter. *)
+Theorem C12_repaired_F16_example :
+  reachable_ne istLeft /\ ranked istLeft /\
+  (* istXnew: X's `finally` with the current text, applied in istX *)
+  istXnew = fst (acquire_p_finish istX 3 1 6 true (RExc ECancelled)) /\
+  arr (lpq (getl istXnew 0)) = [mkE 3%Q 1 4; mkE 5%Q 0 3] /\
+  arr (lpq (getl istLeft 0)) = [mkE 3%Q 1 4; mkE 5%Q 0 3] /\
+  lwt (getl istLeft 0) = [(3, 1); (4, 2)] /\
+  map (fun t => Qred (wprio istLeft t)) [1; 2] = [5%Q; 3%Q] /\
+  live istLeft (mkE 5%Q 0 3) /\ live istLeft (mkE 3%Q 1 4) /\
+  keyed istLeft 0 /\ keyed istLeft 1 /\
+  tholding (gett istLeft 1) = [1] /\
+  release_p istLeft 0 0 = (wake_up_first_p (pre_wake istLeft 0 0) 0, RVal 0) /\
+  PQInv (lpq (getl (pre_wake istLeft 0 0) 0)) /\ keyed (pre_wake istLeft 0 0) 0 /\
+  before (pre_wake istLeft 0 0) 0 (mkE 3%Q 1 4) (mkE 5%Q 0 3) /\
+  map (fun f => fstate_ (getf (fst (release_p istLeft 0 0)) f)) [3; 4] = [FPending; FResult 1] /\
+  (* the same in the run itself *)
+  map (fun f => fstate_ (getf istAfter f)) [3; 4] = [FPending; FResult 1].
+Proof.
+  destruct istLeft_facts as (N & A & B & _ & _ & _ & _ & C & _ & D & E & T & K0 & K1).
+  destruct istLeft_handover as (G & _ & Q & KF & H & J & R & _).
+  split; [exact reachable_ne_istLeft|]. split; [exact istLeft_ranked|]. split; [exact istXnew_def|].
+  split; [exact N|]. split; [exact A|]. split; [exact B|]. split; [exact C|]. split; [exact D|].
+  split; [exact E|]. split; [exact K0|]. split; [exact K1|]. split; [exact T|]. split; [exact G|].
+  split; [exact Q|]. split; [exact KF|]. split; [exact H|]. split; [rewrite G; exact J|exact R].
+Qed.
+Print Assumptions C12_repaired_F16_example.
+
+(* Key tracking when a waiter LEAVES (the repair of F16 in general; Sched/InheritLeave.v).
+   acquire()'s `finally` for waiter future f of lock l, run by task t while l is locked by
+   another task o (t was cancelled / interrupted, or woken although the lock has an owner):
+   nothing is taken, and
+   - l stays locked by o and f is no longer queued on it;
+   - compared with the old text of the `finally` (which stopped after removing the entry) only
+     keys differ: same effective priorities, same future->task tables and queued futures, every
+     entry keeps future and arrival number, its key is the old one or the CURRENT effective
+     priority of its task; up-to-date keys stay up to date;
+   - for every blocked PriorityTask w on the holder chain above o (o itself, the owner of the
+     lock o waits for, ...) the entry of w in the lock it waits for is keyed by w's effective
+     priority in the resulting state - which no longer counts the waiter that left.
+   Hypotheses as for C12_key_tracks_eprio (C13's invariant, lwt_ok, the chain fits the recursion
+   budget), plus: every task recorded for the leaving future f is runnable - it is the task
+   running the `finally` (Task.__step has cleared its _fut_waiter). *)
+From Asynkit Require Import Sched.InheritLeave.
+Theorem C12_rekey_on_leave :
+  forall s t l f had inp o, Inv s -> lwt_ok s ->
+    In f (pq_objs (lpq (getl s l))) ->
+    llocked (getl s l) = true -> lowner (getl s l) = Some o -> o <> t ->
+    (forall l0 u, In (f, u) (lwt (getl s l0)) -> task_is_runnable s u = true) ->
+    let s' := fst (acquire_p_finish s t l f had inp) in
+    let sO := fst (InheritStale.acquire_p_finish_old s t l f had inp) in
+    (llocked (getl s' l) = true /\ lowner (getl s' l) = Some o /\
+     ~ In f (pq_objs (lpq (getl s' l)))) /\
+    (forall u, (effective_priority s' u == effective_priority sO u)%Q) /\
+    (forall l0, lwt (getl s' l0) = lwt (getl sO l0) /\
+                Permutation (pq_objs (lpq (getl s' l0))) (pq_objs (lpq (getl sO l0))) /\
+                forall e', In e' (arr (lpq (getl s' l0))) ->
+                  exists e, In e (arr (lpq (getl sO l0))) /\ eseq e' = eseq e /\ eobj e' = eobj e /\
+                    ((epri e' == epri e)%Q \/
+                     (epri e' == wprio s' (entry_task (getl s' l0) e'))%Q)) /\
+    (forall l0, keyed sO l0 -> keyed s' l0) /\
+    (forall n w l1 f1, reaches s n o w -> n < efuel s -> blocked_on s w l1 f1 ->
+       forall e, In e (arr (lpq (getl s' l1))) -> Z.to_nat (eobj e) = f1 ->
+                 (epri e == effective_priority s' w)%Q).
+Proof. exact rekey_on_leave. Qed.
+Print Assumptions C12_rekey_on_leave.
+
+(* Non-vacuity of C12_rekey_on_leave: its hypotheses hold in the reachable state istX for X's
+   `finally` (t = 3, l = 1, f = 6, o = W1 = 1; W1 is blocked on lock 0 with future 3), and the
+   theorem gives that W1's entry in lock 0 carries W1's effective priority afterwards. *)
+Theorem C12_rekey_on_leave_example :
+  (Inv istX /\ lwt_ok istX /\ In 6 (pq_objs (lpq (getl istX 1))) /\
+   llocked (getl istX 1) = true /\ lowner (getl istX 1) = Some 1 /\
+   (forall l0 u, In (6, u) (lwt (getl istX l0)) -> task_is_runnable istX u = true) /\
+   reaches istX 0 1 1 /\ 0 < efuel istX /\ blocked_on istX 1 0 3) /\
+  (forall e, In e (arr (lpq (getl istXnew 0))) -> Z.to_nat (eobj e) = 3 ->
+             (epri e == effective_priority istXnew 1)%Q).
+Proof.
+  split; [|exact istX_rekey_by_theorem].
+  split; [exact (reachable_inv _ reachable_istX)|]. split; [exact (reach_lwt_ok _ reachable_istX)|].
+  split; [vm_compute; auto|]. split; [vm_compute; reflexivity|]. split; [vm_compute; reflexivity|].
+  split; [exact istX_caller_runs|]. split; [constructor|]. split; [unfold efuel; lia|exact istX_b1].
+Qed.
+Print Assumptions C12_rekey_on_leave_example.
 
 (* The domain on which the keys ARE up to date: in every state reachable without eager
    starts, the live entry of a queued task that holds no PriorityLock is keyed by that task's
@@ -288,7 +398,18 @@ Print Assumptions C12_domain_static.
                             (holds a result) in T (S k): action k hands l over to that waiter
      waiter_prio s l f   := wprio s (task_of_fut (getl s l) f): effective priority of the task
                             recorded for waiter future f, 0 for a plain task
-     flat s l            := the tasks queued on l hold no PriorityLock. *)
+     flat s l            := the tasks queued on l hold no PriorityLock.
+   Side condition added with the repair of F16 (all theorems that compare with the state BEFORE the
+   action): "the holder of l is not itself queued on a PriorityLock" in that state,
+     forall o l0 f, lowner (getl (T k) l) = Some o -> ~ In (f, o) (lwt (getl (T k) l0)).
+   Reason: the `finally` of acquire() - the first thing a resumed waiter executes - now calls
+   owning.propagate_priority when the waiter leaves a lock that stays locked, which re-keys entries up
+   the holder chain; if the leaving task HOLDS l (a waits-for cycle through l, broken by a
+   cancellation) entries of l are re-keyed and, later in the same step, the task can release l: the
+   hand-over then follows the new keys, not those stored before the action.  Without the side
+   condition the statements are false: C12_no_overtake_needs_holder_free.  In every other case an
+   action that re-keys entries of l wakes no waiter of l (NoOvertakeRel.v: phase 0 [rek], and the
+   ownership clauses [otr] of phase 1). *)
 From Asynkit Require Import Sched.NoOvertakeRel Sched.NoOvertakePass Sched.NoOvertakeThms
   Sched.NoOvertakeExample.
 
@@ -297,13 +418,15 @@ From Asynkit Require Import Sched.NoOvertakeRel Sched.NoOvertakePass Sched.NoOve
    then fb's entry is strictly (key, arrival number)-less than fa's entry, both taken from the
    waiter heap in the state BEFORE the action.  No hypothesis on keys or priorities: this is
    the heap-minimum property of _wake_up_first carried through the whole action (the wake-up
-   happens at an intermediate state; entries are neither added nor re-keyed before it). *)
+   happens at an intermediate state; entries are neither added nor re-keyed before it - given
+   that the holder of l is not itself queued on a PriorityLock, see above). *)
 Theorem C12_no_overtake_keys :
   forall prio_loop factor draws lks cds nev acts,
     let s0 := init_st prio_loop factor draws lks cds nev in
     let T := fun k => fold_left do_action (firstn k acts) s0 in
     run_ok s0 acts -> run_ne s0 acts ->
     forall l fa fb k ea eb, k < length acts ->
+      (forall o l0 f, lowner (getl (T k) l) = Some o -> ~ In (f, o) (lwt (getl (T k) l0))) ->
       In ea (arr (lpq (getl (T k) l))) -> Z.to_nat (eobj ea) = fa ->
       In eb (arr (lpq (getl (T k) l))) -> Z.to_nat (eobj eb) = fb ->
       In fa (pq_objs (lpq (getl (T (S k)) l))) -> fdone (T (S k)) fa = false ->
@@ -327,7 +450,9 @@ Theorem C12_no_overtake_step :
     let s0 := init_st prio_loop factor draws lks cds nev in
     let T := fun k => fold_left do_action (firstn k acts) s0 in
     run_ok s0 acts -> run_ne s0 acts ->
-    forall l fa qa fb qb k, k < length acts -> keyed (T k) l ->
+    forall l fa qa fb qb k, k < length acts ->
+      (forall o l0 f, lowner (getl (T k) l) = Some o -> ~ In (f, o) (lwt (getl (T k) l0))) ->
+      keyed (T k) l ->
       waits_at (T k) l fa qa -> waits_at (T (S k)) l fa qa ->
       queued_at (T k) l fb qb -> granted_at T l fb k ->
       (waiter_prio (T k) l fb < waiter_prio (T k) l fa)%Q \/
@@ -343,9 +468,10 @@ Print Assumptions C12_no_overtake_step.
    effective-priority value) in every state of [i, j] in which b is queued on l, then none of the
    actions i..j hands l over to b.  Hypotheses: run_ok, run_ne (the run), keyed in the states of
    the window (domain condition: keys track effective priorities - it fails only after a
-   waiter's effective priority became LESS urgent while queued, i.e. after a cancellation /
-   release / set-priority among its own waiters: C12_keyed_not_invariant, O16).  Nothing is
-   assumed about acyclicity. *)
+   waiter's effective priority became LESS urgent while queued and nobody re-keyed it: a release /
+   set-priority among its own waiters, O16; the cancellation case is repaired, F16), and in the
+   same states the holder of l is not itself queued on a PriorityLock (which excludes the
+   waits-for cycles through l; nothing else is assumed about acyclicity). *)
 Theorem C12_no_overtake :
   forall prio_loop factor draws lks cds nev acts,
     let s0 := init_st prio_loop factor draws lks cds nev in
@@ -355,6 +481,7 @@ Theorem C12_no_overtake :
       (forall k, i <= k <= S j ->
          (exists e, In e (arr (lpq (getl (T k) l))) /\ Z.to_nat (eobj e) = fa /\ eseq e = qa) /\
          fdone (T k) fa = false) ->
+      (forall k, i <= k <= j -> forall o l0 f, lowner (getl (T k) l) = Some o -> ~ In (f, o) (lwt (getl (T k) l0))) ->
       (forall k, i <= k <= j -> keyed (T k) l) ->
       (forall k, i <= k <= j -> In fb (pq_objs (lpq (getl (T k) l))) ->
          (wprio (T k) (task_of_fut (getl (T k) l) fa) < wprio (T k) (task_of_fut (getl (T k) l) fb))%Q) ->
@@ -367,8 +494,9 @@ Proof.
 Qed.
 Print Assumptions C12_no_overtake.
 
-(* ... with [keyed] derived from reachability: no hypothesis besides the run's side conditions
-   when the tasks queued on l hold no PriorityLock in the states of the window *)
+(* ... with [keyed] derived from reachability when the tasks queued on l hold no PriorityLock in
+   the states of the window.  (The holder condition is kept here too; it is presumably implied on
+   this domain - a re-keyed waiter holds a lock - but that is not proved.) *)
 Theorem C12_no_overtake_flat :
   forall prio_loop factor draws lks cds nev acts,
     let s0 := init_st prio_loop factor draws lks cds nev in
@@ -376,6 +504,7 @@ Theorem C12_no_overtake_flat :
     run_ok s0 acts -> run_ne s0 acts ->
     forall l fa qa fb i j, j < length acts ->
       waits_through T l fa qa i (S j) ->
+      (forall k, i <= k <= j -> forall o l0 f, lowner (getl (T k) l) = Some o -> ~ In (f, o) (lwt (getl (T k) l0))) ->
       (forall k, i <= k <= j -> forall g w, In (g, w) (lwt (getl (T k) l)) -> tholding (gett (T k) w) = []) ->
       (forall k, i <= k <= j -> In fb (pq_objs (lpq (getl (T k) l))) ->
          (waiter_prio (T k) l fa < waiter_prio (T k) l fb)%Q) ->
@@ -396,6 +525,7 @@ Theorem C12_fifo_among_equals_history :
     run_ok s0 acts -> run_ne s0 acts ->
     forall l fa qa fb qb i j, j < length acts ->
       waits_through T l fa qa i (S j) ->
+      (forall k, i <= k <= j -> forall o l0 f, lowner (getl (T k) l) = Some o -> ~ In (f, o) (lwt (getl (T k) l0))) ->
       (forall k, i <= k <= j -> keyed (T k) l) ->
       (qa < qb)%Z ->
       (forall k, i <= k <= j -> queued_at (T k) l fb qb ->
@@ -416,6 +546,7 @@ Theorem C12_fifo_plain_tasks_history :
     run_ok s0 acts -> run_ne s0 acts ->
     forall l fa qa fb qb i j, j < length acts ->
       waits_through T l fa qa i (S j) ->
+      (forall k, i <= k <= j -> forall o l0 f, lowner (getl (T k) l) = Some o -> ~ In (f, o) (lwt (getl (T k) l0))) ->
       (forall k, i <= k <= j -> forall g w, In (g, w) (lwt (getl (T k) l)) -> tholding (gett (T k) w) = []) ->
       (qa < qb)%Z ->
       (forall k, i <= k <= j ->
@@ -461,7 +592,8 @@ Print Assumptions C12_no_overtake_domain_static.
    of lock 0), B=1 (3), C=2 (-10), A=3 (5, owner of lock 1), X=4 (-5); waiter futures of lock 0:
    B 4 (arrival 0), C 5 (arrival 1), A 6 (arrival 2)).  X starts waiting on lock 1 AFTER A queued
    on lock 0 (action 11): A inherits -5 and its entry is re-keyed from 5 to -5, arrival 2 kept.
-   In the window of states 12..14 A waits and is strictly more urgent than B; [keyed] holds; the
+   In the window of states 12..14 A waits and is strictly more urgent than B; [keyed] holds and the
+   holder of lock 0 (H) is not queued anywhere; the
    release by H (action 13) happens inside the window and goes to C; by the theorem B is not
    granted the lock in the window.  The next hand-over (action 14) goes to A before the earlier
    arrival B, as C12_no_overtake_step requires (-5 < 3).  Service order C, A, B; arrival order
@@ -478,6 +610,7 @@ Theorem C12_no_overtake_example :
    map (fun t => Qred (wprio (T 11) t)) [1; 2; 3] = [3%Q; (-10)%Q; 5%Q] /\
    map (fun t => Qred (wprio (T 12) t)) [1; 2; 3] = [3%Q; (-10)%Q; (-5)%Q]) /\
   (waits_through T 0 6 2 12 14 /\
+   (forall k, 12 <= k <= 13 -> forall o l0 f, lowner (getl (T k) 0) = Some o -> ~ In (f, o) (lwt (getl (T k) l0))) /\
    (forall k, 12 <= k <= 13 -> keyed (T k) 0) /\
    (forall k, 12 <= k <= 13 -> (waiter_prio (T k) 0 6 < waiter_prio (T k) 0 4)%Q)) /\
   (granted_at T 0 5 13 /\ forall k, 12 <= k <= 13 -> ~ granted_at T 0 4 k) /\
@@ -489,8 +622,46 @@ Proof.
   { destruct n_queue as (A & B & _ & _ & _ & C & D & E & F & G).
     exact (conj A (conj B (conj C (conj D (conj E (conj F G)))))). }
   split.
-  { split; [exact n_A_waits|]. split; [|exact n_urgency]. intros k Hk. apply n_keyed. lia. }
+  { split; [exact n_A_waits|]. split; [intros k Hk; apply n_holder_free; lia|].
+    split; [|exact n_urgency]. intros k Hk. apply n_keyed. lia. }
   split; [exact (conj n_grant_C n_no_overtake)|].
   destruct n_service_order as (A & B & C & _). exact (conj A (conj B C)).
 Qed.
 Print Assumptions C12_no_overtake_example.
+
+(* The side condition "the holder of l is not itself queued on a PriorityLock" cannot be dropped
+   (repaired model; Sched/NoOvertakeExample.v, [cyc_*]; list loop, locks 0 and 1).  T (task 0,
+   priority -5) holds lock 0 and queues on lock 1; O (task 1, priority 5) holds lock 1 and queues on
+   lock 0 (future 5, arrival 1, inherits -5 from T: key -5); W (task 2, priority 3) queues on lock 0
+   (future 3, arrival 0, key 3); T is cancelled.  The run satisfies run_ok and run_ne, [keyed] holds
+   for lock 0 in state 9, O waits on lock 0 before and after action 9 and is strictly more urgent
+   than W in state 9 (-5 < 3) - yet action 9 (T's step: `finally` of acquire(lock 1) re-keys O's
+   entry to 5, then T catches the CancelledError and releases lock 0) grants lock 0 to W.  So the
+   conclusions of C12_no_overtake_keys / _step / C12_no_overtake (with i = j = 9) fail; the only
+   hypothesis violated is the holder condition: T holds lock 0 and is queued on lock 1. *)
+Theorem C12_no_overtake_needs_holder_free :
+  let T := tr (init_st false 0 [] [LPrio; LPrio] [] 0) cacts in
+  (run_ok (init_st false 0 [] [LPrio; LPrio] [] 0) cacts /\
+   run_ne (init_st false 0 [] [LPrio; LPrio] [] 0) cacts) /\
+  (arr (lpq (getl (T 9) 0)) = [mkE (-5)%Q 1 5; mkE 3%Q 0 3] /\
+   arr (lpq (getl (T 10) 0)) = [mkE 3%Q 0 3; mkE 5%Q 1 5] /\
+   lowner (getl (T 9) 0) = Some 0 /\ lwt (getl (T 9) 1) = [(4, 0)] /\
+   map (fun t => Qred (wprio (T 9) t)) [0; 1; 2] = [(-5)%Q; (-5)%Q; 3%Q] /\
+   map (fun t => Qred (wprio (T 10) t)) [0; 1; 2] = [(-5)%Q; 5%Q; 3%Q]) /\
+  keyed (T 9) 0 /\
+  (waits_at (T 9) 0 5 1 /\ In 5 (pq_objs (lpq (getl (T 10) 0))) /\ fdone (T 10) 5 = false) /\
+  granted_at T 0 3 9 /\
+  ~ ((3 < -5)%Q \/ ((3 == -5)%Q /\ (0 < 1)%Z)) /\
+  ~ (forall o l0 f, lowner (getl (T 9) 0) = Some o -> ~ In (f, o) (lwt (getl (T 9) l0))).
+Proof.
+  cbv zeta.
+  split; [exact (conj cyc_run_ok cyc_run_ne)|].
+  split.
+  { destruct cyc_states as (A & B & _ & C & D & _ & E & F & _).
+    exact (conj A (conj B (conj D (conj C (conj E F))))). }
+  split; [exact cyc_keyed|].
+  split; [exact cyc_O_waits|].
+  split; [exact cyc_grant_W|].
+  split; [exact (proj2 (proj2 cyc_keys_fail))|exact cyc_not_holder_free].
+Qed.
+Print Assumptions C12_no_overtake_needs_holder_free.
